@@ -340,7 +340,20 @@ def r1_sibling_entry_points(ctx, res):
     key = 'add-dispatch'
     res.inst(key, av.loc(), 'for package in iterpackages(source): wordnet -> _add_lmf, ili -> _add_ili')
     lm = [r for r in av.rows if r[0] in ('call', 'eval') and r[1].startswith('_add_lmf($1.resource_file(), ')]
-    if len(lm) != 1 or lm[0][3][:1] != ('for iterpackages(source)',) or '$1.type == _WORDNET' not in lm[0][2]:
+    ok_direct = len(lm) == 1 and lm[0][3][:1] == ('for iterpackages(source)',) and '$1.type == _WORDNET' in lm[0][2]
+    if not ok_direct:
+        # the dispatch may live in a helper that add() calls for every package
+        for r in av.rows:
+            if r[0] in ('call', 'eval') and r[3][:1] == ('for iterpackages(source)',) and not {g for g in r[2] if g.startswith('$1')}:
+                import re as _re
+                m = _re.match(r'^(\w+)\(\$1, ', r[1])
+                if m and m.group(1) in av.f.module.funcs:
+                    hv = view(ctx, '_add', m.group(1))
+                    p0 = hv.f.params[0] if hv.f.params else '?'
+                    hl = [x for x in hv.rows if x[0] in ('call', 'eval', 'return') and f'_add_lmf({p0}.resource_file(), ' in x[1]]
+                    if len(hl) == 1 and f'{p0}.type == _WORDNET' in hl[0][2]:
+                        ok_direct = True
+    if not ok_direct:
         res.find(key, av.loc(), f'add() no longer adds every wordnet package found by iterpackages(source) through _add_lmf: '
                                 f'{[(r[1][:50], sorted(r[2]), r[3]) for r in lm]}')
 
